@@ -116,7 +116,7 @@ def make_cases(ctx, scale=None):
     flag_sets = [dict(zip(FLAG_NAMES, bits)) for bits in itertools.product([False, True], repeat=4)]
     cases = []
 
-    def add(kind, sizes, flags, legacy=None, mt=False, big=False, n_chunks=1, chunk=-1, drop_ranks=False):
+    def add(kind, sizes, flags, legacy=None, mt=False, big=False, n_chunks=1, chunk=-1, drop_ranks=False, z=0.5):
         n_slabs = len(sizes)
         idl = arrange(kind, n_slabs, sizes, rng, big)
         all_ids = [i for s in idl for i in s]
@@ -132,7 +132,7 @@ def make_cases(ctx, scale=None):
             slabs.append({'ids': ids, 'legacy': bool(legacy and legacy[si]),
                           'parts': [rng.choice(pool) for _ in range(npart)]})
         cases.append({'kind': kind, 'slabs': slabs, 'serial': [[i, serial[i]] for i in all_ids], 'flags': dict(flags),
-                      'mt': mt, 'n_chunks': n_chunks, 'chunk': chunk, 'drop_ranks': drop_ranks})
+                      'mt': mt, 'n_chunks': n_chunks, 'chunk': chunk, 'drop_ranks': drop_ranks, 'z': z})
 
     # 1. structured: every order kind x slab count x all 16 flag sets (sizes random, >= 1 halo per slab)
     nmax = 4 if quick else 6
@@ -167,7 +167,10 @@ def make_cases(ctx, scale=None):
         for chunk in range(n_chunks):
             add(rng.choice(kinds[1:]), [rng.randrange(2, 5) for _ in range(n_slabs)], rng.choice(flag_sets),
                 n_chunks=n_chunks, chunk=chunk)
-    # 6. larger tables
+    # 6. a secondary redshift: staging loads the halo files only (no particles, empty host index)
+    for kind in ('decreasing', 'interleaved'):
+        add(kind, [2, 2], rng.choice(flag_sets), z=0.575)
+    # 7. larger tables
     for _ in range(3 if quick else 25):
         n_slabs = rng.randrange(2, 5)
         add(rng.choice(kinds[1:]), [rng.randrange(5, 30 if quick else 120) for _ in range(n_slabs)],
@@ -199,39 +202,46 @@ def impl_cases(payload):
     base = payload.get('scratch') or tempfile.gettempdir()
     os.makedirs(base, exist_ok=True)
     out = []
+    real_hist = np.histogramdd
+    if payload.get('fast', True):
+        # After staging, __init__ builds two halo-mass-function histograms, one of them with 100^4 = 10^8 cells (0.5 s and
+        # 800 MB per construction), which have nothing to do with the staged tables: stub np.histogramdd for the bulk of
+        # the runs.  explore() repeats a sample of the cases with the untouched constructor and requires identical results.
+        np.histogramdd = lambda sample, bins=10, **kw: (None, bins)
     for c in payload['cases']:
         root = tempfile.mkdtemp(prefix='c12_', dir=base)
         try:
-            out.append(run_one(c, root, np, S, AbacusHOD))
-        except Exception as e:  # noqa: BLE001
-            out.append({'class': classify(e), 'value': f'{type(e).__name__}: {e}'[:300]})
+            out.append(run_one(c, root, np, S, AbacusHOD, classify))
         finally:
             shutil.rmtree(root, ignore_errors=True)
+    np.histogramdd = real_hist
     return out
 
 
-def run_one(c, root, np, S, AbacusHOD):
+def run_one(c, root, np, S, AbacusHOD, classify):
     serial = {int(i): int(s) for i, s in c['serial']}
     id_of = {s: i for i, s in serial.items()}
     flags = c['flags']
     slabs = []
     pser = 0
-    any_legacy = any(s['legacy'] for s in c['slabs'])
     for s in c['slabs']:
         h = S.tagged_halos(s['ids'], [serial[i] for i in s['ids']], veldev_1d=s['legacy'])
         n = len(s['parts'])
         p = S.tagged_particles(s['parts'], list(range(pser, pser + n)))
         pser += n
-        slabs.append({'halos': h, 'particles': p, 'legacy': s['legacy']})
-    # one schema per file: legacy files store scalar deviates.  build() takes one override set, so write per slab.
-    cfg = None
-    for i, s in enumerate(slabs):
-        ov = {'randoms_gaus_vrms': ('f8', ()), 'randoms_exp': ('f8', ())} if s['legacy'] else None
-        # build() numbers files from 0: write slab i alone into a scratch root and move it into place
-        cfg = build_slab(S, root, i, len(slabs), s, ov, c)
+        slab = {'halos': h, 'particles': p}
+        if s['legacy']:
+            slab['halo_overrides'] = S.LEGACY_VELDEV      # this file stores one velocity deviate per halo
+        slabs.append(slab)
+    drop = ('ranksp', 'ranksr', 'ranksc') if c['drop_ranks'] else ()
+    cfg = S.build(root, slabs, mt=c['mt'], withranks=bool(flags['want_ranks']), part_drop=drop,
+                  z_mock=c.get('z', S.Z_MOCK))
     cfg['HOD_params'].update({k: bool(flags[k]) for k in FLAG_NAMES})
-    hod = AbacusHOD(cfg['sim_params'], cfg['HOD_params'], cfg['clustering_params'], chunk=c['chunk'],
-                    n_chunks=c['n_chunks'])
+    try:  # only the implementation's own exceptions are outcomes; a failure of the decoding below is a harness error
+        hod = AbacusHOD(cfg['sim_params'], cfg['HOD_params'], cfg['clustering_params'], chunk=c['chunk'],
+                        n_chunks=c['n_chunks'])
+    except Exception as e:  # noqa: BLE001
+        return {'class': classify(e), 'value': f'{type(e).__name__}: {e}'[:300]}
     hd, pd = hod.halo_data, hod.particle_data
     mpart = S.HEADER['ParticleMassHMsun']
     exp = 'randoms_exp' if flags['want_expvel'] else 'randoms_gaus_vrms'
@@ -275,7 +285,7 @@ def run_one(c, root, np, S, AbacusHOD):
     for key in sorted(hd.keys()):
         arr = np.asarray(hd[key])
         rows = []
-        a2 = arr.reshape(len(arr), -1)
+        a2 = arr.reshape(len(arr), -1) if len(arr) else arr.reshape(0, 1)
         for r in range(a2.shape[0]):
             row = [describe(key, a2[r, k], k, None) for k in range(a2.shape[1])]
             if -1 in row and len(bad_raw) < 5:
@@ -297,7 +307,7 @@ def run_one(c, root, np, S, AbacusHOD):
             pbad.append([key, 'length', int(len(arr))])
             continue
         if key in ptags:
-            a2 = arr.reshape(npart, -1)
+            a2 = arr.reshape(npart, -1) if npart else arr.reshape(0, 1)
             dec = [[S.dec(a2[r, k]) for k in range(a2.shape[1])] for r in range(npart)]
             ok = all(d is not None and d[1] == ptags[key][k] for row in dec for k, d in enumerate(row))
             ser = [row[0][0] if row and row[0] is not None else -1 for row in dec]
@@ -334,30 +344,6 @@ def run_one(c, root, np, S, AbacusHOD):
         'bad_raw': bad_raw, 'numslabs': int(hod.params['numslabs']) if hasattr(hod, 'params') else None}}
 
 
-def build_slab(S, root, i, n_slabs, s, overrides, c):
-    """Write slab i (S.build numbers the slabs it is given from 0, so build it alone and rename into place)."""
-    import os
-    import shutil
-    tmp = os.path.join(root, '_one')
-    drop = ('ranksp', 'ranksr', 'ranksc') if c['drop_ranks'] else ()
-    wr = bool(c['flags']['want_ranks'])
-    S.build(tmp, [s], mt=c['mt'], withranks=wr, halo_overrides=overrides, part_drop=drop)
-    zdir = 'z%4.3f' % S.Z_MOCK
-    h0, p0 = S.slab_file_names(0, c['mt'], wr)
-    hi, pi = S.slab_file_names(i, c['mt'], wr)
-    sub_src = os.path.join(tmp, 'subs', S.SIM_NAME, zdir)
-    sub_dst = os.path.join(root, 'subs', S.SIM_NAME, zdir)
-    info_src = os.path.join(tmp, 'sims', S.SIM_NAME, 'halos', zdir, 'halo_info')
-    info_dst = os.path.join(root, 'sims', S.SIM_NAME, 'halos', zdir, 'halo_info')
-    os.makedirs(sub_dst, exist_ok=True)
-    os.makedirs(info_dst, exist_ok=True)
-    shutil.move(os.path.join(sub_src, h0), os.path.join(sub_dst, hi))
-    shutil.move(os.path.join(sub_src, p0), os.path.join(sub_dst, pi))
-    shutil.move(os.path.join(info_src, 'halo_info_000.asdf'), os.path.join(info_dst, 'halo_info_%03d.asdf' % i))
-    shutil.rmtree(tmp, ignore_errors=True)
-    return S.config(root, mt=c['mt'], want_ranks=wr)
-
-
 # ------------------------------------------------------------------------------------------------ oracle
 def judge(c, got):
     """The property, judged on the decoded result of the implementation.  Returns a list of (mode, detail)."""
@@ -386,7 +372,7 @@ def judge(c, got):
         out.append(('misaligned:' + '+'.join(sorted(bad_plain)), {k: x[:4] for k, x in bad_plain.items()}))
     if bad_legacy:
         out.append(('misaligned:hveldev:legacy-1d', {k: x[:4] for k, x in bad_legacy.items()}))
-    phid = [p for s in ld for p in s['parts']]
+    phid = loaded_parts(c)
     if v['phid'] != phid:
         out.append(('phid', {'got': v['phid'][:12], 'expected': phid[:12]}))
     wrong = [j for j, (p, i) in enumerate(zip(v['phid'], v['pinds'])) if not (0 <= i < len(hid) and hid[i] == p)]
@@ -398,12 +384,16 @@ def judge(c, got):
 
 
 def violations_of(c, got, seen):
+    """Violation dicts for the failure modes of this case not reported yet (one report per mode: the callers visit the
+    cases smallest first, so the smallest failing case becomes the replay; the key names the arrays it shows)."""
     out = []
     for mode, detail in judge(c, got):
         key = 'staging:' + mode
-        if key in seen:
+        group = 'misaligned-legacy' if mode.endswith(':legacy-1d') else mode.split(':')[0] if not mode.startswith(
+            'raises') else mode
+        if group in seen:
             continue
-        seen.add(key)
+        seen.add(group)
         out.append({'key': key, 'what': WHAT.get(mode.split(':')[0], mode) + ' [' + mode + ']', 'input': c,
                     'impl_result': {'detail': detail,
                                     'hid': [r[0] for r in got['value']['cols'].get('hid', [])][:20]
@@ -426,6 +416,13 @@ WHAT = {
 }
 
 
+def loaded_parts(c):
+    """Recorded host ids of the particles staging loads, in file order (none at a secondary redshift)."""
+    if c.get('z', 0.5) != 0.5:
+        return []
+    return [p for s in loaded_slabs(c) for p in s['parts']]
+
+
 def size_of(c):
     return (sum(len(s['ids']) for s in c['slabs']), len(c['slabs']), sum(len(s['parts']) for s in c['slabs']))
 
@@ -436,7 +433,7 @@ def case_term(c, keys):
     ld = loaded_slabs(c)
     fl = coqio.tup([coqio.b(f[k]) for k in FLAG_NAMES])
     slabs = coqio.lst([coqio.tup([coqio.b(s['legacy']), coqio.zlist(s['ids'])]) for s in ld])
-    phid = coqio.zlist([p for s in ld for p in s['parts']])
+    phid = coqio.zlist(loaded_parts(c))
     ks = coqio.lst(['"%s"%%string' % k for k in keys])
     return coqio.tup([fl, slabs, phid, ks])
 
@@ -459,13 +456,13 @@ def ensure_model(ctx):
     return ctx.model_available
 
 
-def run_impl(ctx, cases):
+def run_impl(ctx, cases, fast=True):
     import os
     out = []
-    step = 120
+    step = 400
     for k in range(0, len(cases), step):
         out += ctx.run_impl('harness.c12', 'impl_cases',
-                            {'cases': cases[k:k + step], 'scratch': os.path.join(ctx.scratch, 'files')})
+                            {'cases': cases[k:k + step], 'scratch': os.path.join(ctx.scratch, 'files'), 'fast': fast})
     return out
 
 
@@ -495,7 +492,8 @@ def explore(ctx):
         unsorted = flat != sorted(flat)
         dist['sort_block_runs'] += unsorted
         dist['halos_total'] += len(flat)
-        dist['particles_total'] += sum(len(s['parts']) for s in loaded_slabs(c))
+        dist['particles_total'] += len(loaded_parts(c))
+        dist['secondary_redshift'] = dist.get('secondary_redshift', 0) + (c.get('z', 0.5) != 0.5)
         dist['outcomes'][r['class']] = dist['outcomes'].get(r['class'], 0) + 1
         if unsorted and len(flat) >= 2:
             nontrivial.add((tuple(tuple(s['ids']) for s in loaded_slabs(c)), tuple(sorted(c['flags'].items())),
@@ -503,6 +501,14 @@ def explore(ctx):
 
     mismatches = []
     traces = 0
+    # a sample of the cases again through the untouched constructor (real np.histogramdd)
+    pick = sorted({order[0], order[1], order[len(order) // 4], order[len(order) // 2]}
+                  | set(ctx.rng.sample(range(len(cases)), 4 if ctx.quick() else 16)))
+    full = run_impl(ctx, [cases[i] for i in pick], fast=False)
+    for i, r in zip(pick, full):
+        if r != results[i]:
+            mismatches.append({'what': 'the run with np.histogramdd stubbed differs from the untouched constructor',
+                               'input': cases[i], 'stubbed': str(results[i])[:600], 'untouched': str(r)[:600]})
     if ensure_model(ctx):
         terms = []
         for c, r in zip(cases, results):
@@ -540,6 +546,7 @@ def explore(ctx):
                                                  if results[i]['class'] == 'ok' else results[i]['value']}}
                     for i in (order[0], s0)],
         'traces_validated_against_impl': traces, 'exhaustive': False, 'input_distribution': dist,
+        'untouched_constructor_runs': len(pick),
         'mismatches': mismatches, 'counterexamples': counterexamples,
     }
 
@@ -570,7 +577,7 @@ def search(ctx, broken):
 
 def replay(ctx, rec):
     c = rec['input']
-    got = run_impl(ctx, [c])[0]
+    got = run_impl(ctx, [c], fast=False)[0]
     modes = judge(c, got)
     want = rec.get('key', '')
     still = any('staging:' + m == want for m, _ in modes) if want.startswith('staging:') else bool(modes)
